@@ -596,6 +596,12 @@ namespace
 	      && (tag != DW_TAG_base_type
 		  || ! dwarf_hasattr_integrate (&type_die, DW_AT_encoding)))
 	    {
+	      // dwarf_diename returns NULL both for a DIE without name
+	      // and on error.  Only an error raised by this very call
+	      // counts, so drop whatever an earlier, unrelated libdw call
+	      // left pending (e.g. "no address value" from a DIE without
+	      // PC's).
+	      dwarf_errno ();
 	      char const *name = dwarf_diename (&type_die);
 	      if (name == nullptr)
 		{
